@@ -127,15 +127,24 @@ prop('C03', level='other', units=[], jobs=['find_zerox'],
      explanation='Bounded only so far: find_zerox on every integer-valued signal over {-1,0,1,2} up to length 6 (quick, sampled) / 7 '
                  '(thorough) and every alternating extrema sequence, against the half-height / temporal-median / fallback reference.')
 
-prop('C08', level='other',
-     units=[],
-     lemmas=['minrun_monotone', 'minrun_props'],
-     jobs=['min_burst_cycles'],
-     explanation='Lemmas over the definition of minrun proved in pure logic (no False->True, m in {0,1} is the identity on the '
-                 'array, m > n clears everything, idempotence step, monotonicity). The body of check_min_burst_cycles is covered by '
-                 'the bounded stand-in: ALL boolean arrays up to length 10 (quick) / 14 (thorough) x all min_n_cycles in [-1, n+1], '
-                 'random arrays to length 60; its contract (result == minrun(old, m), same object, ValueError iff m < 0) is what '
-                 'C06 / C07 / C16 use.')
+prop('C08', level='proof',
+     units=[BU + 'check_min_burst_cycles'],
+     lemmas=['minrun_monotone', 'minrun_props', 'minrun_idempotent'],
+     jobs=['min_burst_cycles', 'armed'],
+     unit_jobs={BU + 'check_min_burst_cycles': ['min_burst_cycles']},
+     trusted=['assumed library contracts used by the proof: np.diff(prepend=0, append=0) on a boolean array (int differences), '
+              'np.flatnonzero (strictly increasing indices of the non-zero entries, with its counting function), strided slices, '
+              'boolean-mask selection sharing one index map, slice store; the induction principle over the integers for the two '
+              'induction steps; the definition of the spec function minrun'],
+     explanation='PROVED for every boolean array of every length and every min_n_cycles (unbounded): check_min_burst_cycles returns '
+                 'the same array object, of the same length, with result[i] == minrun(old, m, i) (i lies in a window of True of '
+                 'length >= m), raises ValueError iff the array is non-empty and m < 0, and never indexes out of range / mismatches '
+                 'shapes (the number of transitions is even). The proof script (contracts/burst.py) has 30 explicit steps: parity of '
+                 'the transition count by induction, monotonicity of the count by induction, run characterisation, maximality of '
+                 'runs, the loop invariant over the cleared slices, and the window argument; every step is a quantifier-free '
+                 'obligation with explicit instances, discharged in milliseconds. Lemmas over the definition: kept runs are whole '
+                 'maximal runs of length >= m; no False -> True; m <= 1 identity; m > n clears; idempotence; monotonicity. Ends are '
+                 'treated like the interior because no clause of minrun mentions them. The bounded job is a cross-check only.')
 
 prop('C09', level='other',
      units=[F + 'shape.compute_shape_features', DF + 'rename_extrema_df', F + 'burst.compute_amp_consistency',
